@@ -294,7 +294,7 @@ static std::string handle(const std::vector<std::string>& f0)
     // the first field names the property whose family the case belongs to; the harness does not care
     std::vector<std::string> f(f0.begin() + 1, f0.end());
     const std::string& op = f.at(0);
-    if (op == "P")
+    if (op == "P" || op == "PM1" || op == "PM2")
     {
         Decl d = parse_decl(f.at(1));
         no::parser p("prog");
@@ -307,7 +307,25 @@ static std::string handle(const std::vector<std::string>& f0)
             return "decl-dev";
         }
         set_env(d, f.at(2));
-        auto r = do_parse(p, d, nv::unhex_list(f.at(3)));
+        std::string r;
+        if (op == "P")
+            r = do_parse(p, d, nv::unhex_list(f.at(3)));
+        else if (op == "PM1")
+        {
+            // a parser built in one place and used in another: move-constructed after its declaration
+            no::parser q(std::move(p));
+            r = do_parse(q, d, nv::unhex_list(f.at(3)));
+        }
+        else
+        {
+            // ... or move-assigned over another parser (which had a declaration and settings of its own)
+            no::parser q("other");
+            q.toggle("dropped", "d").short_name("D");
+            q.accept_positionals(7);
+            q.greedy_postionals();
+            q = std::move(p);
+            r = do_parse(q, d, nv::unhex_list(f.at(3)));
+        }
         set_env(d, ".");
         return r;
     }
